@@ -352,8 +352,9 @@ class AbstractOnlineSpecification(AbstractSpecification):
 
     def reset(self):
         if self.set_ast_flag != True:
-            self.online_interpreter.set_ast(self.ast)
-            self.set_ast_flag = True
+            # nothing has been constructed yet: the first update() builds the operations, with
+            # the sampling period that is configured by then
+            return
         self.online_interpreter.reset()
 
 
